@@ -543,6 +543,10 @@ func findPrefixesCore(node *RegexNode, res *[]*bytes.Buffer, ignoreCase bool) bo
 		// that comprise the set. For case-insensitive, we need the set to be two ASCII letters that case fold to the same thing.
 		// As with One and loops, set loops are handled the same as sets up to the min iteration limit.
 		case NtSet, NtSetloop, NtSetlazy, NtSetloopatomic:
+			// the chars of a negated set are the ones it excludes
+			if node.Set.IsNegated() {
+				return false
+			}
 
 			setChars := node.Set.GetSetChars(maxPrefixes)
 
